@@ -116,20 +116,12 @@ Theorem C39_constants_pinned :
 Proof. exact (conj archive_suffix_pinned hash_len_pinned). Qed.
 Print Assumptions C39_constants_pinned.
 
-(* the gRPC service layer (getRepoPath -> getOrCreateStore -> DBCache.Get) *)
-Theorem C39_grpc_confined_guarded :
+(* the gRPC service layer (getRepoPath -> getOrCreateStore -> DBCache.Get), code as repaired in a6f850d *)
+Theorem C39_grpc_confined :
   forall root use_id p org name d, absolute root ->
     grpc_access true root (grpc_repo_path use_id p org name) = Some d -> under root d.
-Proof. exact grpc_confined_guarded. Qed.
-Print Assumptions C39_grpc_confined_guarded.
-
-(* the service as it is (no validation of repo_path / repo_id) *)
-Theorem C39_grpc_confined_refuted :
-  exists root rp1 d1 rp2 d2, absolute root
-    /\ grpc_access false root rp1 = Some d1 /\ ~ under root d1
-    /\ grpc_access false root rp2 = Some d2 /\ ~ under root d2.
-Proof. exact grpc_confined_refuted. Qed.
-Print Assumptions C39_grpc_confined_refuted.
+Proof. exact grpc_confined. Qed.
+Print Assumptions C39_grpc_confined.
 
 Theorem C39_oracle_on_model_confinement :
   (forall ctx mode meth ro qbad p, absolute (fs_root ctx) ->
